@@ -223,7 +223,7 @@ def correspond(ctx: C.Ctx, cov: C.Coverage) -> List[C.Disagreement]:
         # checker: equal pairs and single-attribute mutations
         from vf import codec
         T = codec.load_table(c03.GEN_JSON)
-        pairs = checker_pairs(ctx.seed, ctx.budget(150, 4000))
+        pairs = checker_pairs(ctx.seed, ctx.budget(300, 4000))
         for a, b, what in pairs:
             va, vb = T.sort_unordered(T.to_val(a)), T.sort_unordered(T.to_val(b))
             lines.append(["checkeq", va, vb]); expect.append(("verdict", real_verdict(a, b))); meta_.append(("pair", what))
@@ -324,6 +324,47 @@ def mutate_attr(obj, rng) -> Optional[Tuple[str, str]]:
                     walk(x)
     walk(obj)
     rng.shuffle(nodes)
+    from basyx.aas import model
+    r = rng.random()
+    if r < 0.3:
+        # rename a contained element (its idShort is also the attribute children are matched by); the kind of container is
+        # chosen first so that operation variables, statements and annotations are renamed as often as plain children
+        by_parent: Dict[str, list] = {}
+        for o, cls in nodes:
+            if isinstance(o, model.Referable) and o.parent is not None and not isinstance(o.parent, model.SubmodelElementList) \
+                    and not isinstance(o, model.Identifiable):
+                by_parent.setdefault(type(o.parent).__name__, []).append((o, cls))
+        order = rng.sample(sorted(by_parent), len(by_parent))
+        order.sort(key=lambda pc: pc == "Submodel")          # the top level last: it is there in every object
+        for pc in order:
+            o, cls = rng.choice(by_parent[pc])
+            try:
+                o.id_short = (o.id_short or "x")[:40] + "Renamed"
+                return f"{pc}>{cls}", "id_short"
+            except Exception:
+                continue
+    elif r < 0.5:
+        # one attribute of one specific asset id (an immutable value: replaced in its owner's list)
+        for o, cls in nodes:
+            sids = getattr(o, "specific_asset_id", None)
+            if cls in ("AssetInformation", "Entity") and sids:
+                k = rng.randrange(len(sids))
+                a = sids[k]
+                ref = model.ExternalReference((model.Key(model.KeyTypes.GLOBAL_REFERENCE, "urn:vf:changed"),))
+                which = rng.choice(["name", "value", "external_subject_id", "semantic_id"] + (["supplemental_semantic_id"] * 3 if a.semantic_id is not None else []))
+                kw = dict(name=a.name, value=a.value, external_subject_id=a.external_subject_id, semantic_id=a.semantic_id,
+                          supplemental_semantic_id=list(a.supplemental_semantic_id))
+                if which in ("name", "value"):
+                    kw[which] = kw[which][:50] + "X"
+                elif which == "supplemental_semantic_id":
+                    kw[which] = kw[which] + [ref]
+                else:
+                    kw[which] = ref if kw[which] != ref else None
+                try:
+                    sids[k] = model.SpecificAssetId(**kw)
+                    return "SpecificAssetId", which
+                except Exception:
+                    continue
     for o, cls in nodes:
         if cls in ("Key", "ExternalReference", "ModelReference", "SpecificAssetId"):
             continue                         # immutable value objects: changed through their owner's attribute below
@@ -364,8 +405,8 @@ def make_obj(tag: str):
     from vf import gen
     g = gen.Gen(random.Random(tag), max_depth=3)
     g.no_nan = True
-    k = sum(map(ord, tag)) % 3
-    return g.submodel() if k == 0 else g.shell() if k == 1 else g.concept_description()
+    k = sum(map(ord, tag)) % 5
+    return g.submodel() if k <= 2 else g.shell() if k == 3 else g.concept_description()
 
 
 def has_unordered_list_or_nan(obj) -> bool:
